@@ -962,6 +962,10 @@ def run(ctx):
                 "FirstOf::feed_event can answer with the second alternative's result although the first alternative may have completed successfully on the same event (blocks %s): for an absent "
                 "Option<Vec<_>> / Option<HashMap<_, _>> in an attribute or body, read from text, both alternatives accept and `Some(empty)` wins over `None` - the direct reading and the reading via the model disagree" % sorted(set(bad_paths))[:4])
 
+    # text path of a derived type: what the printers write for a #[form(body)] field inside an attribute must be readable (F64)
+    from rules import C09 as _C09
+    ctx.borrow(_C09, {"C09.R1d": ("C16.R18", "a #[form(body)] value inside an attribute is printed inside the parenthesis that is already open (C09.R1d)")})
+
     with ctx.rule("C16.R15", "T5", "derive(Tag): the name a variant is written under (as_ref, VARIANTS) is the name it is read back by (from_str)", floor=3) as r:
         # One clause of the derive macros that *is* table agreement inside a single function: DeriveTag::to_tokens builds three tables from the same
         # (variant, rename) pairs. Each must turn the pair into a literal through the same NameTransform::transform - a table that spells the
